@@ -179,7 +179,8 @@ pub fn c07(a: &Args) {
         }
     }
     crate::cli_props::cli_pass(a, &mut out, &mut rng, &["urs"]);
-    out.finish("(+ CLI pass: the rebuilt binary's `urs` on a sample of the models, judged by the same oracles) every model of the C01 space x 4-5 assumption lists (incl. a 22-literal one) x amounts {0,1,2,5,17} (10^4 occasionally) x seeds: length, validity, None iff unsat, repeatability, stream `random`; every run's random decisions (or-splits, shuffles) recorded by the hook and replayed through the Lean model, which must accept each decision and reproduce the sample list; chi-square uniformity per (model, A) with <=256 models from 41 600 draws pooled over 52 seeds, threshold df+2sqrt(27.63 df)+55.26 (false alarm < 1e-12)");
+    crate::shifted_props::shifted(a, &mut out, &mut rng, &["urs"]);
+    out.finish("(+ renumbered models: features base+1..base+n for base 126 / 254 / 1020, judged by the small model's truth table: urs) (+ CLI pass: the rebuilt binary's `urs` on a sample of the models, judged by the same oracles) every model of the C01 space x 4-5 assumption lists (incl. a 22-literal one) x amounts {0,1,2,5,17} (10^4 occasionally) x seeds: length, validity, None iff unsat, repeatability, stream `random`; every run's random decisions (or-splits, shuffles) recorded by the hook and replayed through the Lean model, which must accept each decision and reproduce the sample list; chi-square uniformity per (model, A) with <=256 models from 41 600 draws pooled over 52 seeds, threshold df+2sqrt(27.63 df)+55.26 (false alarm < 1e-12)");
 }
 
 // ------------------------------------------------------------------------------------------------
